@@ -19,6 +19,7 @@ FUNCTIONS['rewrite'] = ['LNot'] + ['%s.get_equivalent_restricted_formula' % c fo
                                    ('AtomicProposition', 'Not', 'A', 'E', 'X', 'F', 'G', 'Or', 'And', 'Imply', 'U', 'R')]
 FUNCTIONS['bdd'] = ['find_isomorph', 'BDDNode.__reset__', 'BDDNonTerminalNode.__reset__', 'BDDNonTerminalNode.__new__']
 PROPERTY_FUNCTIONS = {
+    'C10': ['Parser.__call__'],
     'C02': ['LTL.modelcheck', 'LNot', 'Not.get_equivalent_restricted_formula'],
     'C03': ['_get_a_new_atomic_proposition_for', 'Kripke.labels'],
     'C16': FUNCTIONS['bdd'],
@@ -50,6 +51,9 @@ TRUSTED = {
             'clone() returns an equal tree (C11, bounded); formulas are identified with their trees',
             'CTL.A/CTL.E rewriting bodies (AU, ER need least-witness reasoning) and receiver-class differences (Lang) are NOT under proof: bounded only',
             'one verification per body: the receiver is any formula with the class tag and arity of the defining class'],
+    'C10': ['ASSUMED external contract of lark.Lark.parse: returns the transformer value or raises lark UnexpectedToken/UnexpectedCharacters '
+            '(mutually exclusive) with pos_in_stream in [0, len(string)]; which strings each grammar accepts is data interpreted by Lark: bounded only',
+            'only the wrapper Parser.__call__ is under proof (exception translation, position, string)'],
     'C16': ['TB7: garbage collection / weak references are not modelled - the table invariant ranges over every node ever registered (stronger than "live"); '
             'a collected node can only remove entries from the weak sets, which preserves uniqueness',
             'TB8 (Bryant canonicity): "no two registered non-terminals share (var, low, high)" + reducedness + orderedness imply "equal function iff same root"; not proved here',
@@ -78,7 +82,7 @@ def build_engine(repo=None, timeout_ms=20000, seed=0):
         E.baseline_names = set()
     for k in contracts_graph.make():
         E.register(k, contracts_graph.FILE)
-    for modname in ('contracts_kripke', 'contracts_ctl', 'formula_sem', 'contracts_bdd'):
+    for modname in ('contracts_kripke', 'contracts_ctl', 'formula_sem', 'contracts_bdd', 'contracts_parser'):
         mod = __import__('vf.pyvc.' + modname, fromlist=['install'])
         mod.install(E)
     from . import contracts_ctl, formula_sem
